@@ -13,6 +13,8 @@
 #include <stdio.h>
 #include <stdint.h>
 #include <pthread.h>
+#include <sys/mman.h>
+#include <unistd.h>
 
 #define GUARD 16
 #define GUARD_BYTE 0xFD
@@ -22,7 +24,20 @@
 #define QBYTES (8u << 20)
 #define MAXV 64
 
-typedef struct { void *p; size_t n; const char *file; int line; } ent_t;
+typedef struct { void *p; size_t n; const char *file; int line; void *map; size_t maplen; } ent_t;
+
+/* mode 0: guard bytes + poison + quarantine (default)
+ * mode 1: electric fence, block right-aligned against an inaccessible page (overruns fault at once)
+ * mode 2: electric fence, block left-aligned after an inaccessible page (underruns fault at once)
+ * In modes 1/2 a freed block becomes inaccessible (use after free faults at once) and stays
+ * mapped in a quarantine so that its address is not reused immediately. */
+static int vp_mode = 0;
+static size_t pagesz = 4096;
+#define EQCAP 256
+#define REDZONE 64
+static ent_t equar[EQCAP];
+static size_t eqhead = 0, eqlen = 0;
+
 
 static ent_t *tab = NULL;
 static size_t tcap = 0, tcnt = 0, ttomb = 0;
@@ -76,16 +91,96 @@ static ent_t *tab_find(void *p)
     return NULL;
 }
 
-static void tab_put(void *p, size_t n, const char *file, int line)
+static void tab_put2(void *p, size_t n, const char *file, int line, void *map, size_t maplen)
 {
     ent_t *e = tab_find(p);
     size_t h;
-    if (e) { e->n = n; e->file = file; e->line = line; return; } /* stale entry (foreign free) */
+    if (e) { e->n = n; e->file = file; e->line = line; e->map = map; e->maplen = maplen; return; } /* stale entry (foreign free) */
     if ((tcnt + ttomb + 1) * 2 > tcap) tab_grow();
     h = hashp(p) & (tcap - 1);
     while (tab[h].p && tab[h].p != TOMB) h = (h + 1) & (tcap - 1);
     if (tab[h].p == TOMB) ttomb--;
-    tab[h].p = p; tab[h].n = n; tab[h].file = file; tab[h].line = line; tcnt++;
+    tab[h].p = p; tab[h].n = n; tab[h].file = file; tab[h].line = line; tab[h].map = map; tab[h].maplen = maplen; tcnt++;
+}
+
+static void tab_put(void *p, size_t n, const char *file, int line) { tab_put2(p, n, file, line, NULL, 0); }
+
+/* Slot arena for the electric-fence modes: NSLOTS data pages separated by inaccessible pages, set up
+ * once (mmap/mprotect are very expensive in this sandbox when many processes use them at once).
+ * Blocks that fit in one page take the next slot of a ring (a freed slot is poisoned and not reused
+ * before NSLOTS further allocations); larger blocks get their own mapping. */
+#define NSLOTS 2048
+static unsigned char *arena = NULL;
+static size_t slot_next = 0;
+static unsigned char slot_busy[NSLOTS];
+
+static int arena_init(void)
+{
+    size_t i, len = (2 * NSLOTS + 1) * pagesz;
+    unsigned char *a = (unsigned char *)mmap(NULL, len, PROT_READ | PROT_WRITE, MAP_PRIVATE | MAP_ANONYMOUS, -1, 0);
+    if (a == MAP_FAILED) return -1;
+    for (i = 0; i <= NSLOTS; i++) mprotect(a + 2 * i * pagesz, pagesz, PROT_NONE);
+    arena = a;
+    return 0;
+}
+
+static void *ef_alloc(size_t n, int zero, const char *file, int line)
+{
+    size_t body = ((n + 7) & ~(size_t)7) + REDZONE, pages, maplen, tries;
+    unsigned char *map, *p, *page;
+    if (body <= pagesz) {
+        if (!arena && arena_init()) return NULL;
+        for (tries = 0; tries < NSLOTS && slot_busy[slot_next % NSLOTS]; tries++) slot_next++;
+        if (tries < NSLOTS) {
+            size_t sl = slot_next % NSLOTS;
+            slot_next++;
+            slot_busy[sl] = 1;
+            page = arena + (2 * sl + 1) * pagesz;
+            memset(page, FRESH_BYTE, pagesz);
+            if (vp_mode == 1) { p = page + pagesz - body; memset(p + body - REDZONE, GUARD_BYTE, REDZONE); }
+            else p = page;
+            if (zero) memset(p, 0, n);
+            pthread_mutex_lock(&mu);
+            tab_put2(p, n, file, line, page, 0);        /* maplen 0: arena slot */
+            pthread_mutex_unlock(&mu);
+            return p;
+        }
+    }
+    pages = (body + pagesz - 1) / pagesz;
+    maplen = (pages + 2) * pagesz;
+    map = (unsigned char *)mmap(NULL, maplen, PROT_READ | PROT_WRITE, MAP_PRIVATE | MAP_ANONYMOUS, -1, 0);
+    if (map == MAP_FAILED) return NULL;
+    mprotect(map, pagesz, PROT_NONE);
+    mprotect(map + (pages + 1) * pagesz, pagesz, PROT_NONE);
+    if (vp_mode == 1) p = map + (pages + 1) * pagesz - body; else p = map + pagesz;
+    memset(map + pagesz, FRESH_BYTE, pages * pagesz);
+    if (zero) memset(p, 0, n);
+    if (vp_mode == 1) memset(p + body - REDZONE, GUARD_BYTE, REDZONE);
+    pthread_mutex_lock(&mu);
+    tab_put2(p, n, file, line, map, maplen);
+    pthread_mutex_unlock(&mu);
+    return p;
+}
+
+static void ef_free(ent_t *e)
+{
+    ent_t old;
+    unsigned char *first = (unsigned char *)e->map + (e->maplen ? pagesz : 0);
+    if ((unsigned char *)e->p != first) {      /* right-aligned: check the red zone */
+        size_t body = ((e->n + 7) & ~(size_t)7), i;
+        unsigned char *g = (unsigned char *)e->p + body;
+        for (i = 0; i < REDZONE; i++)
+            if (g[i] != GUARD_BYTE) { viol("guard-overrun", e->p, e->n, e->file, e->line, "vp_free(efence)", 0, i); break; }
+    }
+    if (!e->maplen) {                          /* arena slot: poison, release to the ring */
+        size_t sl = (((unsigned char *)e->map - arena) / pagesz - 1) / 2;
+        memset(e->map, FREED_BYTE, pagesz);
+        slot_busy[sl] = 0;
+        return;
+    }
+    mprotect(e->map, e->maplen, PROT_NONE);
+    if (eqlen == EQCAP) { old = equar[eqhead]; munmap(old.map, old.maplen); eqhead = (eqhead + 1) % EQCAP; eqlen--; }
+    equar[(eqhead + eqlen) % EQCAP] = *e; eqlen++;
 }
 
 static void tab_del(ent_t *e) { e->p = TOMB; tcnt--; ttomb++; }
@@ -128,6 +223,7 @@ void *vp_malloc(size_t n, const char *file, int line)
 {
     unsigned char *p;
     if (n > (size_t)-1 - GUARD) return NULL;
+    if (vp_mode) { p = (unsigned char *)ef_alloc(n, 0, file, line); if (p) { pthread_mutex_lock(&mu); n_malloc++; n_bytes += n; pthread_mutex_unlock(&mu); } return p; }
     p = (unsigned char *)malloc(n + GUARD);
     if (!p) return NULL;
     memset(p, FRESH_BYTE, n);
@@ -144,6 +240,7 @@ void *vp_calloc(size_t k, size_t n, const char *file, int line)
     size_t t;
     if (n && k > ((size_t)-1 - GUARD) / n) return NULL;
     t = k * n;
+    if (vp_mode) { p = (unsigned char *)ef_alloc(t, 1, file, line); if (p) { pthread_mutex_lock(&mu); n_calloc++; n_bytes += t; pthread_mutex_unlock(&mu); } return p; }
     p = (unsigned char *)malloc(t + GUARD);
     if (!p) return NULL;
     memset(p, 0, t);
@@ -161,6 +258,7 @@ void vp_free(void *p, const char *file, int line)
     pthread_mutex_lock(&mu);
     e = tab_find(p);
     if (!e) { n_foreign_free++; pthread_mutex_unlock(&mu); free(p); return; }
+    if (e->map) { ent_t c = *e; tab_del(e); n_free++; ef_free(&c); pthread_mutex_unlock(&mu); return; }
     {
         size_t n = e->n, bad = guard_bad((unsigned char *)p + n);
         const char *af = e->file; int al = e->line;
@@ -199,7 +297,7 @@ int vp_check_all(void)
     size_t i, before = (size_t)nviol;
     pthread_mutex_lock(&mu);
     for (i = 0; i < tcap; i++)
-        if (tab[i].p && tab[i].p != TOMB) {
+        if (tab[i].p && tab[i].p != TOMB && !tab[i].map) {
             size_t bad = guard_bad((unsigned char *)tab[i].p + tab[i].n);
             if (bad) {
                 viol("guard-overrun", tab[i].p, tab[i].n, tab[i].file, tab[i].line, "vp_check_all", 0, bad - 1);
@@ -218,6 +316,9 @@ int vp_check_all(void)
     return nviol - (int)before;
 }
 
+void vp_set_mode(int m) { long ps = sysconf(_SC_PAGESIZE); if (ps > 0 && !arena) pagesz = (size_t)ps; vp_mode = m; }
+int vp_arena_init(void) { long ps = sysconf(_SC_PAGESIZE); if (ps > 0 && !arena) pagesz = (size_t)ps; return arena ? 0 : arena_init(); }
+int vp_get_mode(void) { return vp_mode; }
 int vp_violations(void) { return nviol; }
 const char *vp_violation_text(int i) { return (i >= 0 && i < nviol && i < MAXV) ? vtext[i] : ""; }
 void vp_reset_violations(void) { nviol = 0; }
